@@ -28,6 +28,7 @@ import (
 	"bytes"
 	"encoding/binary"
 	"fmt"
+	"strings"
 
 	"github.com/Comcast/gots/v2"
 	"github.com/Comcast/gots/v2/psi"
@@ -256,68 +257,69 @@ func (s *scte35) String() string {
 		return fmt.Sprintf(indentString+format, a...)
 	}
 
-	str := ""
+	// (a builder: appending to a string copies it every time, which made printing quadratic in the size of the section)
+	var str strings.Builder
 	s.UpdateData()
-	str += indentPrintf("table_id: 0x%X\n", s.tableHeader.TableID)
-	str += indentPrintf("section_syntax_indicator: %t\n", s.tableHeader.SectionSyntaxIndicator)
-	str += indentPrintf("private_indicator: %t\n", s.tableHeader.PrivateIndicator)
-	str += indentPrintf("section_length: %d\n", s.tableHeader.SectionLength)
+	str.WriteString(indentPrintf("table_id: 0x%X\n", s.tableHeader.TableID))
+	str.WriteString(indentPrintf("section_syntax_indicator: %t\n", s.tableHeader.SectionSyntaxIndicator))
+	str.WriteString(indentPrintf("private_indicator: %t\n", s.tableHeader.PrivateIndicator))
+	str.WriteString(indentPrintf("section_length: %d\n", s.tableHeader.SectionLength))
 
-	str += indentPrintf("protocol_version: 0x%X\n", s.protocolVersion)
-	str += indentPrintf("encrypted_packet: %t\n", s.encryptedPacket)
-	str += indentPrintf("encryption_algorithm: 0x%X\n", s.encryptionAlgorithm)
+	str.WriteString(indentPrintf("protocol_version: 0x%X\n", s.protocolVersion))
+	str.WriteString(indentPrintf("encrypted_packet: %t\n", s.encryptedPacket))
+	str.WriteString(indentPrintf("encryption_algorithm: 0x%X\n", s.encryptionAlgorithm))
 
-	str += indentPrintf("has_pts: %t\n", s.HasPTS())
-	str += indentPrintf("adjusted_pts: %d\n", s.PTS())
-	str += indentPrintf("cw_index: 0x%X\n", s.cwIndex)
-	str += indentPrintf("tier: 0x%X\n", s.tier)
-	str += indentPrintf("splice_command_type: %s\n", SpliceCommandTypeNames[s.commandType])
+	str.WriteString(indentPrintf("has_pts: %t\n", s.HasPTS()))
+	str.WriteString(indentPrintf("adjusted_pts: %d\n", s.PTS()))
+	str.WriteString(indentPrintf("cw_index: 0x%X\n", s.cwIndex))
+	str.WriteString(indentPrintf("tier: 0x%X\n", s.tier))
+	str.WriteString(indentPrintf("splice_command_type: %s\n", SpliceCommandTypeNames[s.commandType]))
 	indent(1)
 	if cmd, ok := s.commandInfo.(SpliceInsertCommand); ok {
-		str += indentPrintf("splice_event_id: 0x%X\n", cmd.EventID())
-		str += indentPrintf("splice_event_cancel_indicator: %t\n", cmd.IsEventCanceled())
+		str.WriteString(indentPrintf("splice_event_id: 0x%X\n", cmd.EventID()))
+		str.WriteString(indentPrintf("splice_event_cancel_indicator: %t\n", cmd.IsEventCanceled()))
 		if !cmd.IsEventCanceled() {
-			str += indentPrintf("out_of_network_indicator: %t\n", cmd.IsOut())
-			str += indentPrintf("program_splice_flag: %t\n", cmd.IsProgramSplice())
-			str += indentPrintf("duration_flag: %t\n", cmd.HasDuration())
-			str += indentPrintf("splice_immediate_flag: %t\n", cmd.SpliceImmediate())
-			str += indentPrintf("splice_time_has_pts: %t\n", cmd.HasPTS())
+			str.WriteString(indentPrintf("out_of_network_indicator: %t\n", cmd.IsOut()))
+			str.WriteString(indentPrintf("program_splice_flag: %t\n", cmd.IsProgramSplice()))
+			str.WriteString(indentPrintf("duration_flag: %t\n", cmd.HasDuration()))
+			str.WriteString(indentPrintf("splice_immediate_flag: %t\n", cmd.SpliceImmediate()))
+			str.WriteString(indentPrintf("splice_time_has_pts: %t\n", cmd.HasPTS()))
 			if cmd.HasPTS() {
-				str += indentPrintf("splice_time_pts: %d\n", cmd.PTS())
+				str.WriteString(indentPrintf("splice_time_pts: %d\n", cmd.PTS()))
 			}
-			str += indentPrintf("component_count: %d\n", len(cmd.Components()))
+			str.WriteString(indentPrintf("component_count: %d\n", len(cmd.Components())))
 			for _, comp := range cmd.Components() {
-				str += indentPrintf("component:\n")
+				str.WriteString(indentPrintf("component:\n"))
 				indent(1)
-				str += indentPrintf("component_tag: 0x%X\n", comp.ComponentTag())
-				str += indentPrintf("component_has_pts: %t\n", comp.HasPTS())
+				str.WriteString(indentPrintf("component_tag: 0x%X\n", comp.ComponentTag()))
+				str.WriteString(indentPrintf("component_has_pts: %t\n", comp.HasPTS()))
 				if comp.HasPTS() {
-					str += indentPrintf("component_pts: %d\n", cmd.PTS())
+					str.WriteString(indentPrintf("component_pts: %d\n", cmd.PTS()))
 				}
 				indent(-1)
 
 				if cmd.HasDuration() {
-					str += indentPrintf("auto_return: %t\n", cmd.IsAutoReturn())
-					str += indentPrintf("duration: %d\n", cmd.Duration())
+					str.WriteString(indentPrintf("auto_return: %t\n", cmd.IsAutoReturn()))
+					str.WriteString(indentPrintf("duration: %d\n", cmd.Duration()))
 				}
-				str += indentPrintf("unique_program_id: %t\n", cmd.UniqueProgramId())
-				str += indentPrintf("avail_num: %d\n", cmd.AvailNum())
-				str += indentPrintf("avails_expected: %d\n", cmd.AvailsExpected())
+				str.WriteString(indentPrintf("unique_program_id: %t\n", cmd.UniqueProgramId()))
+				str.WriteString(indentPrintf("avail_num: %d\n", cmd.AvailNum()))
+				str.WriteString(indentPrintf("avails_expected: %d\n", cmd.AvailsExpected()))
 			}
 		}
 	}
 
 	if cmd, ok := s.commandInfo.(TimeSignalCommand); ok {
-		str += indentPrintf("time_specified_flag: %t\n", cmd.HasPTS())
+		str.WriteString(indentPrintf("time_specified_flag: %t\n", cmd.HasPTS()))
 		if cmd.HasPTS() {
-			str += indentPrintf("pts_time: %d\n", cmd.PTS())
+			str.WriteString(indentPrintf("pts_time: %d\n", cmd.PTS()))
 		}
 	}
 	indent(-1)
 
-	str += indentPrintf("descriptor_count: %d\n", len(s.Descriptors()))
+	str.WriteString(indentPrintf("descriptor_count: %d\n", len(s.Descriptors())))
 	for _, desc := range s.descriptors {
-		str += indentPrintf("descriptor:\n")
+		str.WriteString(indentPrintf("descriptor:\n"))
 
 		indent(1)
 		if desc.IsIn() {
@@ -326,59 +328,59 @@ func (s *scte35) String() string {
 		if desc.IsOut() {
 			indentPrintf("---> OUT Segmentation Descriptor")
 		}
-		str += indentPrintf("segmentation_event_id: 0x%X\n", desc.EventID())
-		str += indentPrintf("segmentation_event_cancel_indicator: %t\n", desc.IsEventCanceled())
+		str.WriteString(indentPrintf("segmentation_event_id: 0x%X\n", desc.EventID()))
+		str.WriteString(indentPrintf("segmentation_event_cancel_indicator: %t\n", desc.IsEventCanceled()))
 		if !desc.IsEventCanceled() {
-			str += indentPrintf("program_segmentation_flag: %t\n", desc.HasProgramSegmentation())
-			str += indentPrintf("segmentation_duration_flag: %t\n", desc.HasDuration())
-			str += indentPrintf("delivery_not_restricted_flag: %t\n", desc.IsDeliveryNotRestricted())
+			str.WriteString(indentPrintf("program_segmentation_flag: %t\n", desc.HasProgramSegmentation()))
+			str.WriteString(indentPrintf("segmentation_duration_flag: %t\n", desc.HasDuration()))
+			str.WriteString(indentPrintf("delivery_not_restricted_flag: %t\n", desc.IsDeliveryNotRestricted()))
 			if !desc.IsDeliveryNotRestricted() {
-				str += indentPrintf("web_delivery_allowed_flag: %t\n", desc.IsWebDeliveryAllowed())
-				str += indentPrintf("no_regional_blackout_flag: %t\n", desc.HasNoRegionalBlackout())
-				str += indentPrintf("archive_allowed_flag: %t\n", desc.IsArchiveAllowed())
-				str += indentPrintf("device_restrictions: %s\n", DeviceRestrictionsNames[desc.DeviceRestrictions()])
+				str.WriteString(indentPrintf("web_delivery_allowed_flag: %t\n", desc.IsWebDeliveryAllowed()))
+				str.WriteString(indentPrintf("no_regional_blackout_flag: %t\n", desc.HasNoRegionalBlackout()))
+				str.WriteString(indentPrintf("archive_allowed_flag: %t\n", desc.IsArchiveAllowed()))
+				str.WriteString(indentPrintf("device_restrictions: %s\n", DeviceRestrictionsNames[desc.DeviceRestrictions()]))
 			}
 			if !desc.HasProgramSegmentation() {
-				str += indentPrintf("component_count: %d\n", len(desc.Components()))
+				str.WriteString(indentPrintf("component_count: %d\n", len(desc.Components())))
 				for _, comp := range desc.Components() {
-					str += indentPrintf("component:\n")
+					str.WriteString(indentPrintf("component:\n"))
 					indent(1)
-					str += indentPrintf("component_tag: 0x%X\n", comp.ComponentTag())
-					str += indentPrintf("pts_offset: %d\n", comp.PTSOffset())
+					str.WriteString(indentPrintf("component_tag: 0x%X\n", comp.ComponentTag()))
+					str.WriteString(indentPrintf("pts_offset: %d\n", comp.PTSOffset()))
 					indent(-1)
 				}
 			}
 			if desc.HasDuration() {
-				str += indentPrintf("segmentation_duration: %d\n", desc.Duration())
+				str.WriteString(indentPrintf("segmentation_duration: %d\n", desc.Duration()))
 			}
-			str += indentPrintf("segmentation_upid_type: %s\n", SegUPIDTypeNames[desc.UPIDType()])
+			str.WriteString(indentPrintf("segmentation_upid_type: %s\n", SegUPIDTypeNames[desc.UPIDType()]))
 			if desc.UPIDType() != SegUPIDMID {
-				str += indentPrintf("segmentation_upid: %s\n", string(desc.UPID()))
+				str.WriteString(indentPrintf("segmentation_upid: %s\n", string(desc.UPID())))
 			} else {
-				str += indentPrintf("segmentation_mid: \n")
+				str.WriteString(indentPrintf("segmentation_mid: \n"))
 				indent(1)
 				for _, upid := range desc.MID() {
-					str += indentPrintf("upid:\n")
+					str.WriteString(indentPrintf("upid:\n"))
 					indent(1)
-					str += indentPrintf("segmentation_mid_upid_type: %s\n", SegUPIDTypeNames[upid.UPIDType()])
-					str += indentPrintf("segmentation_mid_upid: %s\n", string(upid.UPID()))
+					str.WriteString(indentPrintf("segmentation_mid_upid_type: %s\n", SegUPIDTypeNames[upid.UPIDType()]))
+					str.WriteString(indentPrintf("segmentation_mid_upid: %s\n", string(upid.UPID())))
 					indent(-1)
 				}
 				indent(-1)
 			}
-			str += indentPrintf("segmentation_type_id: %s\n", SegDescTypeNames[desc.TypeID()])
-			str += indentPrintf("segment_num: 0x%X\n", desc.SegmentNumber())
-			str += indentPrintf("segments_expected: 0x%X\n", desc.SegmentsExpected())
+			str.WriteString(indentPrintf("segmentation_type_id: %s\n", SegDescTypeNames[desc.TypeID()]))
+			str.WriteString(indentPrintf("segment_num: 0x%X\n", desc.SegmentNumber()))
+			str.WriteString(indentPrintf("segments_expected: 0x%X\n", desc.SegmentsExpected()))
 			if desc.HasSubSegments() {
-				str += indentPrintf("sub_segment_num: 0x%X\n", desc.SubSegmentNumber())
-				str += indentPrintf("sub_segments_expected: 0x%X\n", desc.SubSegmentsExpected())
+				str.WriteString(indentPrintf("sub_segment_num: 0x%X\n", desc.SubSegmentNumber()))
+				str.WriteString(indentPrintf("sub_segments_expected: 0x%X\n", desc.SubSegmentsExpected()))
 			}
 		}
 		indent(-1)
 	}
 
-	str += indentPrintf("alignment_stuffing_byte_count: %d\n", s.alignmentStuffing)
-	str += indentPrintf("CRC_32: 0x%X", s.data[len(s.data)-4:])
+	str.WriteString(indentPrintf("alignment_stuffing_byte_count: %d\n", s.alignmentStuffing))
+	str.WriteString(indentPrintf("CRC_32: 0x%X", s.data[len(s.data)-4:]))
 
-	return str
+	return str.String()
 }
